@@ -139,10 +139,25 @@ func InitEventSender(cfg *EventConfig) (S3EventSender, error) {
 	return evSender, err
 }
 
+// cloneStrPtr returns a pointer to a private copy of the string
+func cloneStrPtr(s *string) *string {
+	if s == nil {
+		return nil
+	}
+	c := strings.Clone(*s)
+	return &c
+}
+
 func createEventSchema(ctx *fiber.Ctx, meta EventMeta, configId ConfigurationId) EventSchema {
-	path := strings.Split(ctx.Path(), "/")
+	// The event is serialized and sent by a separate goroutine after the
+	// request has been answered. Strings taken from the request context
+	// are views into buffers that the next request reuses, so the event
+	// must own a copy of each of them.
+	path := strings.Split(strings.Clone(ctx.Path()), "/")
 	bucket, object := path[1], strings.Join(path[2:], "/")
 	acc := ctx.Locals("account").(auth.Account)
+	meta.ObjectETag = cloneStrPtr(meta.ObjectETag)
+	meta.VersionId = cloneStrPtr(meta.VersionId)
 
 	return EventSchema{
 		Records: []EventRecord{
@@ -156,11 +171,11 @@ func createEventSchema(ctx *fiber.Ctx, meta EventMeta, configId ConfigurationId)
 					PrincipalId: acc.Access,
 				},
 				RequestParameters: EventRequestParams{
-					SourceIPAddress: ctx.IP(),
+					SourceIPAddress: strings.Clone(ctx.IP()),
 				},
 				ResponseElements: EventResponseElements{
-					RequestId: ctx.Get("X-Amz-Request-Id"),
-					HostId:    ctx.Get("X-Amz-Id-2"),
+					RequestId: strings.Clone(ctx.Get("X-Amz-Request-Id")),
+					HostId:    strings.Clone(ctx.Get("X-Amz-Id-2")),
 				},
 				S3: EventS3Data{
 					S3SchemaVersion: "1.0",
